@@ -2,6 +2,7 @@
 -- lemmas (Lemmas/) and the property theorems (Props/), one file per property of /verif/properties.jsonl.
 import IweModel.Props.C01
 import IweModel.Props.C02
+import IweModel.Props.C03
 import IweModel.Props.C04
 import IweModel.Props.C05
 import IweModel.Props.C06
@@ -12,6 +13,7 @@ import IweModel.Props.C10
 import IweModel.Props.C11
 import IweModel.Props.C12
 import IweModel.Props.C15
+import IweModel.Props.C16
 import IweModel.Props.C17
 import IweModel.Props.C18
 import IweModel.Props.C19
